@@ -128,6 +128,8 @@ type maState struct {
 	// each round solves the dataflow from scratch with the sets justified by the previous round
 	// (starting from none), so the sets only grow and every member is justified without itself.
 	loopGen, loopGenPrev map[[2]*ssa.BasicBlock][]int
+	loopCand             map[loopLeaf]map[*ssa.BasicBlock]bool // element-store blocks per (loop, leaf) of the pass
+	loopCandInstr        map[loopLeaf]*ssa.Store
 	allowed, allowedPrev map[*ssa.Call]bool
 	// facts gathered during the final pass
 	taintedLoad  map[ssa.Value]bool
@@ -368,6 +370,7 @@ func (s *maState) solve(top bitset) {
 	for _, b := range fn.Blocks {
 		s.transferBlock(b)
 	}
+	s.finishPass()
 }
 
 func sameLoopGen(a, b map[[2]*ssa.BasicBlock][]int) bool {
@@ -406,6 +409,8 @@ func sameCalls(a, b map[*ssa.Call]bool) bool {
 
 func (s *maState) resetFacts() {
 	s.loopGen = map[[2]*ssa.BasicBlock][]int{}
+	s.loopCand = map[loopLeaf]map[*ssa.BasicBlock]bool{}
+	s.loopCandInstr = map[loopLeaf]*ssa.Store{}
 	s.allowed = map[*ssa.Call]bool{}
 	s.taintedLoad = map[ssa.Value]bool{}
 	s.allocTainted = map[*ssa.Alloc]bool{}
@@ -1149,20 +1154,61 @@ func (s *maState) elementStore(li int, st *ssa.Store, valueTainted bool) {
 		s.partial[li] = "loop has another exit (break/return) before all elements are assigned: " + describeInstr(st)
 		return
 	}
-	// executed on every iteration: the store's block dominates every latch
-	for _, p := range loop.header.Preds {
-		if loop.blocks[p] && !b.Dominates(p) {
-			s.partial[li] = "element assigned only under a condition inside the loop: " + describeInstr(st)
-			return
+	// Executed on every iteration: every path through the loop body from its entry back to the
+	// header passes a block that stores element iv of this leaf (one unconditional store, or one
+	// store in each arm of an if/else). Candidates are collected here and judged in finishPass.
+	ck := loopLeaf{loop, li}
+	if s.loopCand[ck] == nil {
+		s.loopCand[ck] = map[*ssa.BasicBlock]bool{}
+		s.loopCandInstr[ck] = st
+	}
+	s.loopCand[ck][b] = true
+}
+
+type loopLeaf struct {
+	loop *idxLoop
+	leaf int
+}
+
+// finishPass turns the element-store candidates of the pass into loop-exit gens.
+func (s *maState) finishPass() {
+	for ck, blocks := range s.loopCand {
+		loop, li := ck.loop, ck.leaf
+		// can the header be reached from the body entry without passing a storing block?
+		seen := map[*ssa.BasicBlock]bool{}
+		var escape func(b *ssa.BasicBlock) bool
+		escape = func(b *ssa.BasicBlock) bool {
+			if b == loop.header {
+				return true
+			}
+			if seen[b] || blocks[b] || !loop.blocks[b] {
+				return false
+			}
+			seen[b] = true
+			for _, nx := range b.Succs {
+				if escape(nx) {
+					return true
+				}
+			}
+			return false
+		}
+		if escape(loop.body) {
+			if s.partial[li] == "" {
+				s.partial[li] = "element assigned only under a condition inside the loop: " + describeInstr(s.loopCandInstr[ck])
+			}
+			continue
+		}
+		k := [2]*ssa.BasicBlock{loop.header, loop.exit}
+		dup := false
+		for _, g := range s.loopGen[k] {
+			if g == li {
+				dup = true
+			}
+		}
+		if !dup {
+			s.loopGen[k] = append(s.loopGen[k], li)
 		}
 	}
-	k := [2]*ssa.BasicBlock{loop.header, loop.exit}
-	for _, g := range s.loopGen[k] {
-		if g == li {
-			return
-		}
-	}
-	s.loopGen[k] = append(s.loopGen[k], li)
 }
 
 // ---------------------------------------------------------------------------------------------
